@@ -722,6 +722,12 @@ func c01Scenario(t *testing.T, o *vOut, seed int64, maxN, scIdx int) {
 		if left := vLeftovers(); len(left) > 0 {
 			o.Mon("C01 lock-left", map[string]any{"seed": seed, "left": left})
 		}
+		// an on-demand request leaves no single-flight entry behind, whatever its outcome: the next
+		// handshake for the name must be able to take its turn
+		if left := hsMapsLeft(); len(left) > 0 {
+			o.Mon("C01 on-demand-turn-never-handed-on", map[string]any{"seed": seed, "left": left})
+			hsClearMaps()
+		}
 		if useFiles {
 			time.Sleep(12 * time.Second) // let the lock-file heartbeats notice their files are gone
 		}
